@@ -121,7 +121,12 @@ def run(tier):
                      "sets and costs from Relations.tla / Gen_C06.tla; non-trivial = the optimal value set is a strict subset of the "
                      "domain. part 2: real DSA A/B/C executions; AlgoMon checks each value change against ArgBestLocal (Dcop.tla) "
                      "computed from the k-th value message of every neighbour")
-    v.cov["trusted_base"] = ["TLC evaluation of Relations.tla/Costs.tla/Dcop.tla/AlgoMon.tla", "vlib/cases.py", "vlib/simrt.py"]
+    v.cov["rule"] += (". part 3: Dsa.tla (implementation-shaped model of DsaComputation A/B/C) checked by TLC over every start order, "
+                      "FIFO delivery order and random draw (initial value, probability test, choice among the candidates) on TLC-drawn "
+                      "instances, invariant MovesAreBestResponses; every explored transition replayed on the real computations")
+    v.cov["trusted_base"] = ["TLC evaluation of Relations.tla/Costs.tla/Dcop.tla/AlgoMon.tla/Dsa.tla", "vlib/cases.py", "vlib/simrt.py"]
+    from ..dsamodel import model_part
+    model_part(v, tier, ["MovesAreBestResponses", "ValueInDomain"], {"C06_dsa_move_not_best_response"}, ["dsa"], seed_off=6, stop=3 if quick else 4)
     return v.finish()
 
 
